@@ -1,6 +1,7 @@
 pub mod c01;
 pub mod c02;
 pub mod c03;
+pub mod numeric;
 
 use crate::report::Report;
 use crate::util::Cfg;
@@ -10,6 +11,8 @@ pub fn run_prop(id: &str, cfg: &Cfg, rep: &mut Report) -> bool {
         "C01" => c01::run(cfg, rep),
         "C02" => c02::run(cfg, rep),
         "C03" => c03::run(cfg, rep),
+        "C04" => numeric::run(numeric::Mode::C04, cfg, rep),
+        "C05" => numeric::run(numeric::Mode::C05, cfg, rep),
         _ => return false,
     }
     true
